@@ -6,7 +6,7 @@ import os
 import string
 import textwrap
 
-from .common import add_failure, bump, new_outcome
+from .common import LEAN, SRC, add_failure, bump, new_outcome
 
 PROP = "C06"
 PROPS_FILES = ["CogentModel/Props/C06.lean"]
@@ -27,6 +27,21 @@ ASSUMPTIONS = [
     "iter_splitlines theorem assumes '\\n' is the only line-boundary character of the decoded text "
     "(form feed etc. make the real loop chunk dependent: theorem splitlines_formfeed_counter; not well-formed sequence data)",
 ]
+
+GEN_PATH = LEAN / "CogentModel" / "Gen" / "C06Dispatch.lean"
+_gen_state = {}
+
+
+def generate(ctx):
+    """translator step: the compression dispatch tables of util/io.py -> Gen/C06Dispatch.lean (every run)"""
+    from translator import c06_dispatch2lean
+
+    table, suffixes, problems, changed = c06_dispatch2lean.generate(SRC, GEN_PATH)
+    _gen_state.update(table=table, suffixes=suffixes)
+    if changed:
+        ctx.notes.append("Gen/C06Dispatch.lean was rewritten (dispatch tables in util/io.py changed or first run)")
+    return problems
+
 
 PRINTABLE = [chr(i) for i in range(32, 127)]
 NAMEY = string.ascii_letters + string.digits + "_>|. -%#:;,="
@@ -696,6 +711,95 @@ def correspondence(ctx):
         if pywf and len(out["samples"]) < 7 and "\r\n" in text and len(recs) > 1:
             out["samples"].append(dict(kind="general FASTA text", text=text, records=general_records(recs)))
 
+    # ---- 8. suffix dispatch: Path.suffixes, get_format_suffixes, _get_compression_open, atomic_write's temp name ----
+    from pathlib import Path
+
+    from cogent3.util import io as c3io
+
+    names = ["".join(t) for n in range(1, 6) for t in itertools.product("a.Gz", repeat=n)]
+    exts = ["fasta", "fa", "FASTA", "phylip", "paml", "gde", "json", "gz", "GZ", "bz2", "zip", "Zip", "tar", "txt", ""]
+    for _ in range(ctx.budget(400, 4000)):
+        stem = rng.choice(["x", "my.seqs", ".hidden", "a-b_c", "..x", "s p"])
+        names.append(stem + "".join("." + rng.choice(exts) for _ in range(rng.randint(0, 3))))
+    names = sorted(set(n for n in names if "/" not in n and n not in (".", "..")))
+    opener_name = {}
+    for _, fn in (_gen_state.get("table") or []):
+        opener_name[getattr(c3io, fn)] = fn
+    sreq, sreal = [], []
+    tmpdir = d / "aw"
+    tmpdir.mkdir(exist_ok=True)
+    for k, name in enumerate(names):
+        pth = Path(name)
+        fmt = _exc(lambda: list(c3io.get_format_suffixes(name)))
+        codec = None
+        if not isinstance(fmt, dict):
+            op = c3io._get_compression_open(name)
+            codec = None if op is None else opener_name.get(op, repr(op))
+        uuid = "u0-1"
+        real = dict(suffixes=list(pth.suffixes), tmp=uuid + "".join(pth.suffixes), format=fmt, codec=codec)
+        if k % 9 == 0 and not isinstance(fmt, dict):  # the real temporary name chosen by atomic_write
+            import shutil
+
+            aw = c3io.atomic_write(tmpdir / name, mode="w")
+            tp = aw._tmppath
+            out["evaluations"] += 1
+            if list(tp.suffixes) != list(pth.suffixes) or "." in tp.name[: len(tp.name) - len("".join(pth.suffixes))]:
+                add_failure(out, "corr", "atomic_write temp name does not carry the destination's suffixes",
+                            dict(name=name), list(pth.suffixes), tp.name, confirmed=False)
+            shutil.rmtree(tp.parent, ignore_errors=True)
+        sreq.append(("suffixes", dict(name=name, uuid=uuid, has_suffix=bool(pth.suffix))))
+        sreal.append(real)
+    for (cmd, arg), real, m in zip(sreq, sreal, drv.batch(sreq)):
+        _cmp(out, "suffix dispatch: model differs (Path.suffixes / get_format_suffixes / _get_compression_open)", arg, m, real,
+             ("sfx", arg["name"]) if real["suffixes"] else None)
+        bump(out, "suffix_codec", str(real["codec"]))
+
+    # ---- 9. GenBank: location machinery and record frame ---------------------------------------------------
+    from cogent3.parse.genbank import iter_genbank_records
+
+    lreq, lreal = [], []
+    for _ in range(ctx.budget(600, 8000)):
+        r = rng.random()
+        if r < 0.6:
+            text = gen_gb_location(rng, rng.choice([1, 2, 5, 9, 40, 1000, 123456]))[0]
+        elif r < 0.8:  # nested / single positions / ambiguity markers / blanks after commas
+            a, b, c, e = sorted(rng.sample(range(1, 500), 4))
+            text = rng.choice([f"join(complement({a}..{b}),{c}..{e})", f"complement(join({a}..{b}, {c}..{e}))", f"{a}",
+                               f"<{a}..>{b}", f"join({a},{b}..{c})", f"order({a}..{b},{c}..{e})",
+                               f"complement(join(complement({a}..{b}),{c}..{e}))", f"join({a}..{b},{c}..{e},{e}..{e})"])
+        else:  # malformed but balanced
+            a, b = sorted(rng.sample(range(1, 500), 2))
+            text = rng.choice([f"{a}...{b}", f"{a}..", f"..{b}", f"join({a}..{b},)", f"x{a}..{b}", "", f"{a}..{b}..{a}",
+                               f"complement()", f"join(a..b)", f"{a}. .{b}"])
+        lreq.append(("gb_location", {"text": text}))
+        lreal.append(real_gb_location(text))
+    for (cmd, arg), real, m in zip(lreq, lreal, drv.batch(lreq)):
+        if "err" in real or "err" in m:  # error classes of the real code are not modelled one to one
+            real, m = ("err" in real), ("err" in m)
+        _cmp(out, "GenBank location: model differs from parse_location_line", arg, m, real, ("gbl", arg["text"]) if real else None)
+        bump(out, "gb_location", "error" if real is True else "ok")
+    greq2, greal2 = [], []
+    for i in range(ctx.budget(60, 600)):
+        mt, names, seqs = gen_recset(rng, ragged=True, distinct_trunc=False, small=i % 2 == 0)
+        recs = [(n, gen_seq(rng, "dna", len(sq), False)) for n, sq in zip(names, seqs)]
+        text, _ = _genbank_text(rng, recs, [] if i % 2 else None)
+        r = rng.random()
+        if r < 0.1:
+            text = text.replace("ORIGIN", "ORIGINAL", 1)
+        elif r < 0.2:
+            text = text.replace("\nORIGIN", "", 1)
+        elif r < 0.3:
+            text = "\n\n" + text.replace("//\n", "//\n\n \n")
+        elif r < 0.35:
+            text = text.rstrip("\n")
+        elif r < 0.4:
+            text = "LOCUS\nORIGIN\n 1 acgt\n//\n"
+        greq2.append(("gb_records", {"text": text}))
+        greal2.append(_exc(lambda: [[l, sq] for l, sq, _ in iter_genbank_records(text.encode("latin-1"), convert_features=None)]))
+    for (cmd, arg), real, m in zip(greq2, greal2, drv.batch(greq2)):
+        _cmp(out, "GenBank record frame: model differs from iter_genbank_records", arg, m, real, ("gbr", arg["text"]) if real else None)
+        bump(out, "gb_records", real["err"] if isinstance(real, dict) else len(real))
+
     # ---- 6. the specification predicates (Spec/SeqRecords.lean) --------------------
     # the hypotheses of the round-trip theorems (wfName / wfSeq / noLower) and the PHYLIP truncation (truncName) against
     # their plain-Python reading, on the generators' own output: every name gen_name(wf=True) produces and every
@@ -886,7 +990,63 @@ def _variations(rng, names, seqs):
     return eol.join(lines) + rng.choice([eol, eol, ""])
 
 
-def _genbank_text(rng, recs):
+def gen_gb_location(rng, L):
+    """(location string, parts in GenBank order [(start, stop, strand)], sorted spans, strand) -- Spec: 1-based
+    inclusive a..b is the python span (a-1, b); complement reverses the part order and flips the strand"""
+    k = rng.choice([1, 1, 2, 3]) if L >= 8 else 1
+    cuts = sorted(rng.sample(range(1, L + 1), min(2 * k, L)))
+    pairs = [(cuts[i], cuts[i + 1]) for i in range(0, len(cuts) - 1, 2)] or [(1, L)]
+    comp = rng.random() < 0.5
+    segs = ",".join(f"{a}..{b}" for a, b in pairs)
+    text = segs if len(pairs) == 1 else f"join({segs})"
+    if comp:
+        text = f"complement({text})"
+    parts = [[a - 1, b, 1] for a, b in pairs]
+    if comp:
+        parts = [[a, b, -1] for a, b, _ in reversed(parts)]
+    return text, parts, sorted([a - 1, b] for a, b in pairs), -1 if comp else 1
+
+
+def real_gb_location(text):
+    from cogent3.parse.genbank import location_line_tokenizer, parse_location_line
+
+    try:
+        ll = parse_location_line(location_line_tokenizer([text]))
+        return dict(parts=[[int(l.start), int(l.stop) + 1, int(l.strand)] for l in ll],
+                    coords=[[int(a), int(b)] for a, b in ll.get_coordinates()], strand=_exc(lambda: int(ll.strand)))
+    except Exception as e:  # noqa: BLE001
+        return {"err": type(e).__name__}
+
+
+def genbank_features_once(scratch, text, want_feats):
+    """feature coordinates: minimal_parser's Location objects vs rich_parser's annotation db vs what was written"""
+    from pathlib import Path
+
+    from cogent3.parse import genbank
+
+    p = Path(scratch) / "gf.gb"
+    p.write_text(text)
+    try:
+        mini = []
+        for r in genbank.minimal_parser(p):
+            mini.append([[f["type"], [[int(l.start), int(l.stop) + 1, int(l.strand)] for l in f["location"]]]
+                         for f in r["features"] if f["type"] != "source"])
+        rich = []
+        for _, seq in genbank.rich_parser(p):
+            rich.append([[f["biotype"], [[int(a), int(b)] for a, b in f["spans"]], f["strand"]]
+                         for f in seq.annotation_db.get_features_matching() if f["biotype"] != "source"])
+    except Exception as e:  # noqa: BLE001
+        return "genbank:feature-coords", want_feats, {"err": type(e).__name__, "msg": str(e)[:120]}
+    finally:
+        p.unlink()
+    w_mini = [[[k, parts] for k, parts, _, _ in fs] for fs in want_feats]
+    w_rich = [sorted([k, spans, "-" if st < 0 else "+"] for k, _, spans, st in fs) for fs in want_feats]
+    if mini != w_mini or [sorted(x) for x in rich] != w_rich:
+        return "genbank:feature-coords", dict(minimal=w_mini, rich=w_rich), dict(minimal=mini, rich=rich)
+    return None
+
+
+def _genbank_text(rng, recs, feats=None):
     out = []
     for name, seq in recs:
         locus = "".join(c for c in name if c.isalnum())[:12] or "L1"
@@ -897,7 +1057,16 @@ def _genbank_text(rng, recs):
         out.append(f"     source          1..{len(seq)}")
         out.append('                     /organism="Test organism"')
         out.append('                     /mol_type="genomic DNA"')
-        if len(seq) > 3:
+        if feats is not None:
+            fs = []
+            for i in range(rng.randint(0, 3)):
+                kind = rng.choice(["gene", "CDS", "misc_feature"])
+                loc, parts, spans, strand = gen_gb_location(rng, len(seq))
+                out.append(f"     {kind:<16}{loc}")
+                out.append(f'                     /gene="g{i}"')
+                fs.append([kind, parts, spans, strand])
+            feats.append(fs)
+        elif len(seq) > 3:
             out.append(f"     gene            2..{len(seq) - 1}")
             out.append('                     /gene="g1"')
         out.append("ORIGIN")
@@ -1111,6 +1280,15 @@ def spec_check(ctx, budget):
         if res:
             _spec_fail(out, f"GenBank parser variants differ on a generated flat file ({res[0]})",
                        dict(check="genbank", text=text, want=[list(w) for w in want]), res[1], res[2], res[0])
+        feats = []
+        ftext, _ = _genbank_text(rng, [(n, s) for n, s in recs if len(s) >= 2], feats)
+        if feats:
+            out["evaluations"] += 1
+            bump(out, "genbank_features", sum(len(f) for f in feats))
+            res = genbank_features_once(scratch, ftext, feats)
+            if res:
+                _spec_fail(out, "GenBank feature coordinates: minimal_parser / rich_parser / the spans written differ",
+                           dict(check="genbank_features", text=ftext, want=feats), res[1], res[2], res[0])
     out.pop("_per_sig", None)
     return out
 
@@ -1160,6 +1338,10 @@ def _rerun(ctx, inp):
         got, _ = real_streamed(inp["parser"], p, inp["chunk_size"])
         if got != inp["want"]:
             add_failure(out, "spec", f"{inp['parser']}(iter_splitlines(path, chunk_size)) differs", inp, inp["want"], got, sig=f"streamed:{inp['parser']}")
+    elif chk == "genbank_features":
+        res = genbank_features_once(scratch, inp["text"], inp["want"])
+        if res:
+            add_failure(out, "spec", "GenBank feature coordinates differ", inp, res[1], res[2], sig=res[0])
     elif chk == "genbank":
         res = genbank_once(scratch, inp["text"], [tuple(w) for w in inp["want"]])
         if res:
